@@ -298,13 +298,13 @@ theorem graph_embed_identity_counterexample :
     graphEmbedCmds (⟨"rectangular", true, 0⟩ : IDefaults Int) 0 false [(1, true), (1, true)] true none [0, 1] =
       [⟨.sgate 1 0, [0]⟩, ⟨.sgate 1 0, [1]⟩] := by decide
 
-/-- `GaussianTransform._decompose`, active and not on vacuum: interferometer `U2` first (built with the *default*
-mesh — the keyword does not reach it), the squeezers not below tolerance as `Sgate(−r, φ)`, then `U1` with the requested
-mesh: the documented `S = O₁ Z O₂` read from the right. -/
+/-- `GaussianTransform._decompose`, active and not on vacuum: interferometer `U2` first, the squeezers not below
+tolerance as `Sgate(−r, φ)`, then `U1` — the documented `S = O₁ Z O₂` read from the right — and *both* interferometers
+carry the requested mesh (after the `fix:`; the first one used to ignore the option). -/
 theorem gaussian_transform_structure {A : Type} [Neg A] (d : IDefaults A) (kwMesh : Option String)
     (sq : List (Bool × A × A)) (reg : List Nat) :
     gaussianTransformCmds d true false kwMesh sq reg =
-      [⟨.interferometer "U2" d.mesh d.dropId d.tol, reg⟩] ++
+      [⟨.interferometer "U2" (kwMesh.getD "rectangular") d.dropId d.tol, reg⟩] ++
       (sq.zipIdx.flatMap fun (e, n) => if e.1 then [(⟨.sgate (-e.2.1) e.2.2, [rg reg n]⟩ : XCmd A)] else []) ++
       [⟨.interferometer "U1" (kwMesh.getD "rectangular") d.dropId d.tol, reg⟩] := by
   simp [gaussianTransformCmds]
